@@ -1,7 +1,8 @@
 (* Model/Equal.v — C18: Node.is_equal (node.py:449-496) as it is NOW.
    Trees carry an object identity per node ([obj], CPython's id()); the code's first test
    is [id(node1) == id(node2)] -> False.  Definitions only. *)
-From MP Require Import Common.Base Common.Tree.
+From MP Require Import Common.Base.
+From MP Require Import Common.Tree.
 
 Inductive otree : Type := OT (obj : nat) (d : nd) (kids : list otree).
 
